@@ -322,7 +322,7 @@ impl Property for C11 {
         "C11"
     }
     fn rule(&self) -> &'static str {
-        "case = two elements starting with 0-5 namespace and attribute nodes + a history (<= 60 steps, keys from a pool of 4) of map-style updates (insert, remove, get_mut, entry().or_insert/or_insert_with/or_default/and_modify/key, occupied get/get_mut/insert/remove/into_mut, vacant insert, clear, set_*/remove_* wrappers) and node-style updates (new_*_node + append_*_node / any_append, detach/remove of such nodes, moving a node from the other element). After every step len/is_empty/contains_key/get/get_node/iter/keys/values/nodes/to_vec/to_hashmap of the read-only AND the mutable view are compared with a reference ordered map (incl. node handles and return values), and outputs() events plus the independently tokenized start tag must list declarations then attributes in reference order. Non-trivial = history with an update in place, a removal from the middle and a node-style step. Distinct by hash of the step list."
+        "case = two elements starting with 0-5 namespace and attribute nodes + a history (<= 60 steps, keys from a pool of 4) of map-style updates (insert, remove, get_mut, entry().or_insert/or_insert_with/or_default/and_modify/key, occupied get/get_mut/insert/remove/into_mut, vacant insert, clear, set_*/remove_* wrappers) and node-style updates (new_*_node + append_*_node / any_append / append_namespace, detach/remove of such nodes, moving a node from the other element or appending an attached node to its own element again, through append_*_node and any_append); the first element is empty, the second has a text and an element child. After every step len/is_empty/contains_key/get/get_node/iter/keys/values/nodes/to_vec/to_hashmap of the read-only AND the mutable view are compared with a reference ordered map (incl. node handles and return values), and outputs() events plus the independently tokenized start tag must list declarations then attributes in reference order. Non-trivial = history with an update in place, a removal from the middle and a node-style step. Distinct by hash of the step list."
     }
     fn plans(&self, tier: Tier) -> Vec<Plan> {
         let small = Plan {
@@ -372,6 +372,10 @@ impl Property for C11 {
         let ename = xot.add_name("e");
         let e1 = xot.new_element(ename);
         let e2 = xot.new_element(ename);
+        // E1 stays empty, E2 has content: the insertion points of the two maps differ between an
+        // empty element and one with ordinary children
+        let _ = xot.append_text(e2, "t");
+        let _ = xot.append_element(e2, ename);
         let mut st = St {
             xot,
             els: [e1, e2],
@@ -655,15 +659,30 @@ impl Property for C11 {
                                 if p + 1 < st.attrs[i].len() {
                                     removed_middle = true;
                                 }
-                                if src.bool() {
-                                    log.push(format!("detach(node of E{}@{})", i + 1, ks));
-                                    st.xot.detach(en.node).map_err(|er| er.to_string())?;
-                                    st.free_attr.push(en.node);
-                                } else {
-                                    log.push(format!("remove(node of E{}@{})", i + 1, ks));
-                                    st.xot.remove(en.node).map_err(|er| er.to_string())?;
+                                match src.choice(3) {
+                                    0 => {
+                                        log.push(format!("detach(node of E{}@{})", i + 1, ks));
+                                        st.xot.detach(en.node).map_err(|er| er.to_string())?;
+                                        st.free_attr.push(en.node);
+                                        st.attrs[i].remove(p);
+                                    }
+                                    1 => {
+                                        log.push(format!("remove(node of E{}@{})", i + 1, ks));
+                                        st.xot.remove(en.node).map_err(|er| er.to_string())?;
+                                        st.attrs[i].remove(p);
+                                    }
+                                    _ => {
+                                        // the attached node appended to its own element again: the key exists,
+                                        // so position and node stay as they are
+                                        removed_middle = false || removed_middle;
+                                        let use_any = src.bool();
+                                        log.push(format!("{}(E{}, its own attached node @{})", if use_any { "any_append" } else { "append_attribute_node" }, i + 1, ks));
+                                        let ret = if use_any { st.xot.any_append(e, en.node) } else { st.xot.append_attribute_node(e, en.node) }.map_err(|er| er.to_string())?;
+                                        if ret != en.node {
+                                            return Err("re-appending an attached attribute node to its own element did not return that node".into());
+                                        }
+                                    }
                                 }
-                                st.attrs[i].remove(p);
                             }
                         }
                         _ => {
@@ -685,8 +704,15 @@ impl Property for C11 {
                             };
                             if let Some((n, dk, dv, from_other)) = donor {
                                 node_style = true;
-                                log.push(format!("append_attribute_node(E{}, existing node @{}={:?} from {})", i + 1, dk, dv, if from_other { "the other element" } else { "nowhere" }));
-                                let ret = st.xot.append_attribute_node(e, n).map_err(|er| er.to_string())?;
+                                let use_any = src.bool();
+                                log.push(format!("{}(E{}, existing node @{}={:?} from {})", if use_any { "any_append" } else { "append_attribute_node" }, i + 1, dk, dv, if from_other { "the other element" } else { "nowhere" }));
+                                let ret = if use_any { st.xot.any_append(e, n) } else { st.xot.append_attribute_node(e, n) }.map_err(|er| er.to_string())?;
+                                if from_other && st.attrs[i].iter().any(|en| en.key == dk) {
+                                    // the key exists on the target: the donor keeps its own entry
+                                    if st.xot.parent(n) != Some(st.els[j]) {
+                                        return Err("appending a node whose key the target already has took it away from the element it was on".into());
+                                    }
+                                }
                                 let pos = st.attrs[i].iter().position(|en| en.key == dk);
                                 match pos {
                                     Some(p) => {
@@ -720,9 +746,19 @@ impl Property for C11 {
                     let opc = src.choice(13);
                     match opc {
                         0 | 1 => {
-                            log.push(format!("E{}.ns.insert({:?},{:?}) [{}]", i + 1, ks, u, if opc == 0 { "map" } else { "set_namespace" }));
+                            let via_create = opc == 1 && src.ratio(1, 3);
+                            log.push(format!("E{}.ns.insert({:?},{:?}) [{}]", i + 1, ks, u, if opc == 0 { "map" } else if via_create { "append_namespace" } else { "set_namespace" }));
                             let old = if opc == 0 {
                                 Some(st.xot.namespaces_mut(e).insert(kid, uid))
+                            } else if via_create {
+                                let cn = xot::xmlname::CreateNamespace::new(&mut st.xot, &ks, &u);
+                                let ret = st.xot.append_namespace(e, &cn).map_err(|er| format!("append_namespace refused: {}", er))?;
+                                if let Some(p) = pos {
+                                    if ret != st.nss[i][p].node {
+                                        return Err("append_namespace on an existing prefix did not return the existing node".into());
+                                    }
+                                }
+                                None
                             } else {
                                 st.xot.set_namespace(e, kid, uid);
                                 None
